@@ -87,7 +87,7 @@ def generate(rng, tier):
     per = 30 if tier == "quick" else 60
     schemas = [(s, True) for s in hand_schemas()]
     for _ in range(nschema):
-        schemas.append((gen.rand_schema(rng), False))
+        schemas.append((gen.rand_schema(rng, p_simple=0.1), False))
     for opts, hand in schemas:
         for _ in range(per if not hand else per * 3):
             ctxflags = 0
